@@ -1,7 +1,7 @@
 (** C10 — Incremental reprocessing equals processing from scratch.
     Only statements, closed by [exact], with their assumptions printed. *)
-From DL Require Import Lib.Bytes Model.WorkerFs Model.Worker Proof.WorkerLoop Proof.WorkerPrune
-     Proof.WorkerTheorems.
+From DL Require Import Lib.Bytes Model.WorkerFs Model.Worker Proof.WorkerInv Proof.WorkerLoop Proof.WorkerPrune
+     Proof.WorkerFailure Proof.WorkerTheorems.
 Open Scope N_scope.
 
 Theorem C10_incremental_eq_fresh :
@@ -217,3 +217,50 @@ Print Assumptions C10_prune_subset.
 Check C10_prune_subset :
   forall snapshot files anc dirs d,
     In d (prune_ancestors snapshot files dirs anc) -> In d dirs.
+
+Theorem C10_failed_run_keeps_dependencies :
+  forall (cfg : Type) (xform : cfg -> path -> content -> fs -> option content * list path)
+         (c : cfg) (it : item) (f : fs) (txt : content),
+    fs_get f (i_src it) = Some txt ->
+    fst (xform c (i_src it) txt f) = None ->
+    i_st (fst (advance cfg xform c it f)) = DoneErr /\
+    snd (advance cfg xform c it f) = f /\
+    forall d, In d (snd (xform c (i_src it) txt f)) -> In d (i_deps (fst (advance cfg xform c it f))).
+Proof. exact failed_run_keeps_dependencies. Qed.
+Print Assumptions C10_failed_run_keeps_dependencies.
+Check C10_failed_run_keeps_dependencies :
+  forall (cfg : Type) (xform : cfg -> path -> content -> fs -> option content * list path)
+         (c : cfg) (it : item) (f : fs) (txt : content),
+    fs_get f (i_src it) = Some txt ->
+    fst (xform c (i_src it) txt f) = None ->
+    i_st (fst (advance cfg xform c it f)) = DoneErr /\
+    snd (advance cfg xform c it f) = f /\
+    forall d, In d (snd (xform c (i_src it) txt f)) -> In d (i_deps (fst (advance cfg xform c it f))).
+
+Theorem C10_sweep_links_dependencies :
+  forall (cfg : Type) (xform : cfg -> path -> content -> fs -> option content * list path)
+         (c : cfg) s i e f done s2 e2 f2 d2,
+    sweep cfg xform c s i e f done = (s2, e2, f2, d2) ->
+    (forall q j, In j (ext_get e q) -> In j (ext_get e2 q)) /\
+    forall k it2 dep, nth k s2 None = Some it2 -> In dep (i_deps it2) -> In (i + k)%nat (ext_get e2 dep).
+Proof. exact sweep_links_dependencies. Qed.
+Print Assumptions C10_sweep_links_dependencies.
+Check C10_sweep_links_dependencies :
+  forall (cfg : Type) (xform : cfg -> path -> content -> fs -> option content * list path)
+         (c : cfg) s i e f done s2 e2 f2 d2,
+    sweep cfg xform c s i e f done = (s2, e2, f2, d2) ->
+    (forall q j, In j (ext_get e q) -> In j (ext_get e2 q)) /\
+    forall k it2 dep, nth k s2 None = Some it2 -> In dep (i_deps it2) -> In (i + k)%nat (ext_get e2 dep).
+
+Theorem C10_source_changed_restarts_dependents :
+  forall inp outp E t p i it,
+    wf inp outp E t -> get_slot (slots t) i = Some it -> In p (i_deps it) ->
+    exists t' it', source_changed t p = Ok t' /\ get_slot (slots t') i = Some it' /\
+                   i_st it' = NotStarted /\ i_src it' = i_src it.
+Proof. exact source_changed_restarts_dependents. Qed.
+Print Assumptions C10_source_changed_restarts_dependents.
+Check C10_source_changed_restarts_dependents :
+  forall inp outp E t p i it,
+    wf inp outp E t -> get_slot (slots t) i = Some it -> In p (i_deps it) ->
+    exists t' it', source_changed t p = Ok t' /\ get_slot (slots t') i = Some it' /\
+                   i_st it' = NotStarted /\ i_src it' = i_src it.
